@@ -1099,9 +1099,9 @@ def _apply_solver_cfg(om, model, gobj, cfg):
             s = om.ScipyKrylov(assemble_jac=bool(cfg.get('jac')), rhs_checking=rc)
             s.options['atol'] = 1e-10
             s.options['rtol'] = 1e-10
-            s.options['err_on_non_converge'] = True
+            s.options['err_on_non_converge'] = bool(cfg.get('krylov_err', True))
             s.options['maxiter'] = 200
-            s.options['restart'] = 200
+            s.options['restart'] = cfg.get('krylov_restart', 200)
             s.options['iprint'] = -1
             return s
         if kind == 'lbgs':
